@@ -203,7 +203,8 @@ SHAPES = {
     'hash': ['', 'f', 'a b', 'a"b', 'a<b>', 'a`b', 'a{b}', 'a#b', '#', '##', '#a', 'a?b', 'a%', '\u00e9', 'a\tb', "a'b", 'a^b', 'a|b', '%00', 'a\\b', ' ', ' a', 'a '],
 }
 SHAPES['password'] = SHAPES['username']
-PBASES = [None, 'https://example.com/a/b?q#f', 'http://u:p@h:8080/x/y', 'a://h/p/q', 'a:opaque', 'file:///C:/d/f', 'https://example.com:443/', 'data:text/plain,x']
+PBASES = [None, 'https://example.com/a/b?q#f', 'http://u:p@h:8080/x/y', 'a://h/p/q', 'a:opaque', 'file:///C:/d/f', 'https://example.com:443/', 'data:text/plain,x',
+          'https://example.com/a+b/c', 'https://h/v1/(old)/api/index?x=(1)#{f}', 'https://h/ns:a/ns:b/leaf', 'https://u+1:p*2@h/a*b/c?d+e#f:g', 'a://h/x{y}/z\\w']
 
 
 def esc(s):
@@ -245,6 +246,11 @@ def w_component_values(ops, rng, n):
                 b = rng.choice(PBASES[1:])
                 po.pat({c: esc(v), 'baseURL': b}, None, ic)
                 po.match({c: v, 'baseURL': b})
+                if c == 'pathname':
+                    # a relative pathname is resolved against the (escaped) base path
+                    rel = rng.choice(['d', 'x/y', '../t', ':id', '*', 'd?'])
+                    po.pat({'pathname': rel, 'baseURL': b}, None, ic)
+                    po.match({'pathname': 'd', 'baseURL': b})
     # raw (unescaped) values: pattern syntax inside component values
     for c in COMPS:
         for v in SHAPES[c]:
